@@ -202,7 +202,9 @@ def gen_case(seeds, params, index):
                 'stream': f.choice([['endless'], ['finite', N + 1]]),
                 'call': call, 'wrap': 'none', 'convert_output': True,
                 'failing_call': True}
-    if r < 0.45:
+    if r < 0.30:
+        return gen_host_case(w, f, flavour, index)
+    if r < 0.48:
         return gen_lambda_result_case(w, f, flavour, index)
     targets = synth.collection_targets(flavour)
     ti = (index // 2) % len(targets)
@@ -235,11 +237,77 @@ def gen_case(seeds, params, index):
     else:
         targ = ['var', 's']
     call = synth.synth_call(w, flavour, (ei, slot), targ)
-    return {'family': 'limit', 'flavour': flavour, 'N': N,
+    case = {'family': 'limit', 'flavour': flavour, 'N': N,
             'Q': f.choice([-1, -1, -1, 2000, 20000]),
             'target': [e['name'], slot, ei], 'stream': stream, 'call': call,
             'wrap': w.choice(WRAPS), 'convert_output': w.random() < 0.8,
             'ctx_shape': w.choice(['plain'] * 8 + ['linked_bare', 'multi_bare'])}
+    if stream[0] in ('endless', 'finite') and w.random() < 0.2:
+        # the lazy sequence reaches the expression inside the input data
+        # (a value of a dictionary, a member of a list) instead of a variable
+        case['data_shape'] = w.choice(DATA_SHAPES)
+    return case
+
+
+# how a host function may declare a parameter that takes a lazy sequence with
+# the documented type system (yaqltypes) - every one of them limits
+HOST_DECLS = ['iterable', 'iterator', 'chain_iter_first', 'chain_iter_last',
+              'chain_iter_mid', 'anyof_iter_first', 'anyof_iter_last',
+              'iterable_validators', 'anyof_of_chain', 'chain_of_anyof',
+              'iterable_nullable', 'chain_two_limiters']
+DATA_SHAPES = ['dict', 'dictdict', 'list', 'listdict', 'dictlist']
+
+
+def host_decl(name):
+    from yaql.language import yaqltypes as T
+    strs = (str,)
+    return {
+        'iterable': lambda: T.Iterable(),
+        'iterator': lambda: T.Iterator(),
+        'chain_iter_first': lambda: T.Chain(T.Iterable(), T.NotOfType(strs)),
+        'chain_iter_last': lambda: T.Chain(T.NotOfType(strs), T.Iterable()),
+        'chain_iter_mid': lambda: T.Chain(T.NotOfType(strs), T.Iterator(),
+                                          T.NotOfType(dict)),
+        'anyof_iter_first': lambda: T.AnyOf(T.Iterable(), T.String()),
+        'anyof_iter_last': lambda: T.AnyOf(T.String(), T.Integer(),
+                                           T.Iterable()),
+        'iterable_validators': lambda: T.Iterable(
+            validators=[lambda v: True]),
+        'anyof_of_chain': lambda: T.AnyOf(
+            T.Chain(T.Iterable(), T.NotOfType(strs)), T.Integer()),
+        'chain_of_anyof': lambda: T.Chain(
+            T.AnyOf(T.Iterator(), T.String()), T.NotOfType(dict)),
+        'iterable_nullable': lambda: T.Iterable(nullable=True),
+        'chain_two_limiters': lambda: T.Chain(T.Iterable(), T.Iterator()),
+    }[name]()
+
+
+def gen_host_case(w, f, flavour, index):
+    """A function of the HOST, its sequence parameter declared with the
+    documented type system (plain and through the combinators), drains what
+    it is given."""
+    N = f.choice(NS)
+    decl = HOST_DECLS[(index // 2) % len(HOST_DECLS)]
+    stream = f.choice([['endless'], ['endless'], ['finite', N + 1],
+                       ['finite', N], ['sized', 'tuple', N + 1],
+                       ['sized', 'tuple', N], ['lib', 'sequence'],
+                       ['lib', 'range', N + 1]])
+    targ = lib_call(stream) if stream[0] == 'lib' else ['var', 's']
+    how = w.choice(['func', 'method', 'kw'])
+    if how == 'kw':
+        call = {'name': 'hostDrain', 'method': False, 'args': [],
+                'kwargs': {'seq': targ}}
+    else:
+        call = {'name': 'hostDrain', 'method': how == 'method',
+                'args': [targ], 'kwargs': {}}
+    case = {'family': 'limit', 'flavour': flavour, 'N': N, 'Q': -1,
+            'target': ['host:' + decl, ['pos', 0], -1], 'stream': stream,
+            'call': call, 'wrap': w.choice(['none', 'none', 'listexpr']),
+            'convert_output': True, 'host_decl': decl,
+            'host_lazy': w.random() < 0.3}
+    if stream[0] in ('endless', 'finite') and w.random() < 0.25:
+        case['data_shape'] = w.choice(DATA_SHAPES)
+    return case
 
 
 def gen_lambda_result_case(w, f, flavour, index):
@@ -468,6 +536,91 @@ def classify(fn):
         sys.settrace(old)
 
 
+def _register_host(ctx, decl, lazy):
+    from yaql.language import specs
+
+    @specs.parameter('seq', host_decl(decl))
+    @specs.name('hostDrain')
+    def host_drain(seq):
+        n = 0
+        if seq is None or isinstance(seq, (str, int)):
+            return -1
+        for _ in seq:
+            n += 1
+        return n
+
+    @specs.parameter('seq', host_decl(decl))
+    @specs.name('hostDrain')
+    def host_drain_lazy(seq):
+        if seq is None or isinstance(seq, (str, int)):
+            return iter(())
+        return (x for x in seq)
+    fn = host_drain_lazy if lazy else host_drain
+    ctx.register_function(fn)
+    ctx.register_function(specs.get_function_definition(
+        fn, name='hostDrain', method=True))
+
+
+def _dot(a, key):
+    return ['call', {'name': '#operator_.', 'method': False,
+                     'args': [a, ['kw', key]], 'kwargs': {}}]
+
+
+def _idx(a, i):
+    return ['call', {'name': '#indexer', 'method': False,
+                     'args': [a, ['lit', i]], 'kwargs': {}}]
+
+
+def _data_expr(shape):
+    d = ['var', '']
+    if shape == 'dict':
+        return _dot(d, 'stream')
+    if shape == 'dictdict':
+        return _dot(_dot(d, 'inner'), 'stream')
+    if shape == 'list':
+        return _idx(d, 1)
+    if shape == 'listdict':
+        return _dot(_idx(d, 0), 'stream')
+    if shape == 'dictlist':
+        return _idx(_dot(d, 'streams'), 0)
+    raise core.HarnessError(shape)
+
+
+def _data_around(s, shape):
+    if shape == 'dict':
+        return {'name': 'x', 'stream': s}
+    if shape == 'dictdict':
+        return {'name': 'x', 'inner': {'stream': s, 'n': 1}}
+    if shape == 'list':
+        return ['x', s]
+    if shape == 'listdict':
+        return [{'stream': s}, 'x']
+    if shape == 'dictlist':
+        return {'streams': [s], 'name': 'x'}
+    raise core.HarnessError(shape)
+
+
+def _via_data(spec, shape):
+    """the call with every `$s` replaced by the path into the data"""
+    def a(x):
+        k = x[0]
+        if k == 'var' and x[1] == 's':
+            return _data_expr(shape)
+        if k == 'rule':
+            return ['rule', x[1], a(x[2])]
+        if k == 'rulex':
+            return ['rulex', a(x[1]), a(x[2])]
+        if k == 'call':
+            return ['call', _via_data(x[1], shape)]
+        if k == 'list':
+            return ['list', [a(y) for y in x[1]]]
+        return x
+    out = dict(spec)
+    out['args'] = [a(x) for x in spec['args']]
+    out['kwargs'] = {k: a(v) for k, v in spec.get('kwargs', {}).items()}
+    return out
+
+
 def exec_limit(case, stats):
     flavour = case['flavour']
     N, Q = case['N'], case['Q']
@@ -475,7 +628,11 @@ def exec_limit(case, stats):
             'yaql.convertOutputData': bool(case.get('convert_output', True))}
     if Q > 0:
         opts['yaql.memoryQuota'] = Q
-    spec = wrap_spec(case['wrap'], case['call'])
+    call = case['call']
+    shape_d = case.get('data_shape')
+    if shape_d:
+        call = _via_data(call, shape_d)
+    spec = wrap_spec(case['wrap'], call)
     try:
         st = synth.build_statement(flavour, spec, opts)
     except Exception:
@@ -504,14 +661,23 @@ def exec_limit(case, stats):
     for k, v in synth.std_vars().items():
         ctx[k] = v
     s = make_stream(case['stream'], N, registry)
+    data = None
     if s is not None:
-        ctx['s'] = s
+        if shape_d:
+            data = _data_around(s, shape_d)
+        else:
+            ctx['s'] = s
+    if case.get('host_decl'):
+        _register_host(ctx, case['host_decl'], case.get('host_lazy'))
     _mon['Q'] = Q
     _mon['over'] = []
     _mon['ran'] = set()
 
     def run():
-        r = st.evaluate(context=ctx)
+        if data is not None:
+            r = st.evaluate(data=data, context=ctx)
+        else:
+            r = st.evaluate(context=ctx)
         if not opts['yaql.convertOutputData']:
             # the host consumes an unfinalised lazy result through the
             # engine's own limiter, as the finalizer would
@@ -580,6 +746,10 @@ def exec_limit(case, stats):
     sk = case['stream'][0] + (':' + str(case['stream'][1])
                               if case['stream'][0] in ('lib', 'sized') else '')
     stats.inc('fault.stream_' + sk)
+    if shape_d:
+        stats.inc('fault.stream_inside_data_' + shape_d)
+    if case.get('host_decl'):
+        stats.inc('host_decl.' + case['host_decl'])
     if any(p == N + 1 for _, p in pulls):
         stats.inc('probe.limit_wrapper_fired_at_exactly_N+1')
     if kind == 'too_large':
